@@ -60,11 +60,15 @@ def run(R):
     H.configure(abits, nmax)
     c = H.cut_result()
     R.encode(f'{SRC}:{c.node.lineno} {QUAL}', c.text)
-    rules = sorted({a['rule'] for a in c.applied})
+    rules = sorted({a['rule'] for a in c.applied} - {'deasync'})
     R.extra['float_cuts'] = c.applied
     R.log(f'[C11] float cuts applied: {[(a["rule"], a["line"]) for a in c.applied] or "NONE (checking the uncut method)"}')
-    if not c.applied:
-        R.assume('no float idiom matched: the UNCUT method is checked (CrossHair treats floats as reals)')
+    if not rules:
+        R.assume('no float idiom matched: the float expressions are checked uncut (CrossHair treats floats as reals)')
+    if any(a['rule'] == 'deasync' for a in c.applied):
+        R.assume('the coroutine is rewritten to a plain function (await / async for driven synchronously by helpers that raise '
+                 'if anything suspends; the fake db never suspends): CrossHair 0.0.110 mis-reads the value stack in coroutine '
+                 'frames with `async for` and can segfault; semantics are unchanged')
 
     # 1. Float64 lemmas for the cuts actually applied
     lemmas_ok = floatcut.prove(R, rules, H.LIMITS, timeout_s=100 if quick else 400, workers=8,
@@ -76,6 +80,7 @@ def run(R):
     gm = chrun.gen_module('C11_conditions', src)
     targets = [f'{gm}.check{n}_{s}' for n, s, _ in names] + [f'{gm}.reach{n}_{s}' for n, s, _ in names]
     res = chrun.run(targets, per_condition_timeout=pct, workers=8)
+    floatcut.require_verdicts(res)
     for n, s, (perm, tperm) in names:
         rv, rmsg, rdt = res[f'{gm}.reach{n}_{s}']
         reach = rv == 'refuted' and 'Error' not in rmsg
